@@ -89,6 +89,8 @@ package pdnode_coord
 // UpdateNamespacePartReplicaInfo for every combination of node-liveness / sync-status answers
 //@ func (pdCoord *PDCoordinator) handleNamespaceMigrate(origNSInfo *cluster.PartitionMetaInfo, currentNodes map[string]cluster.NodeInfo, currentNodesEpoch int64) *cluster.CoordErr
 //@   requires pdCoord != nil && pdCoord.dpm != nil && idsOK(origNSInfo) && len(origNSInfo.Removings) <= 1
+// a removal mark is only written while the replicas that are alive are a strict majority of the configured replica count
+//@   callassert UpdateNamespacePartReplicaInfo len(nsInfo.Removings) > 0 ==> 2 * aliveReplicas > nsInfo.Replica
 //@   ensures result == nil && len(origNSInfo.RaftNodes) > old(len(origNSInfo.RaftNodes)) ==> ghost(readyok, nil) > old(ghost(readyok, nil))
 //@   modifies *
 //@ loop 1
